@@ -101,6 +101,8 @@ type Macro struct {
 	Host  string  `json:"host"`
 	Tok   string  `json:"tok"`
 	Attrs int     `json:"attrs"`
+	Bound bool    `json:"bound"`          // the request passes the real WithUpstreamInfo first (info.UpstreamCluster is set)
+	Mid0  []Macro `json:"mid0,omitempty"` // bound: run between WithUpstreamInfo and the authenticator / authorizer
 	Mid1  []Macro `json:"mid1,omitempty"` // tok: run when the review closure resolves the host again
 	Mid2  []Macro `json:"mid2,omitempty"` // tok: run while the TokenReview is in flight
 	Mid   []Macro `json:"mid,omitempty"`  // sar: run while the SubjectAccessReview is in flight
@@ -150,6 +152,7 @@ type ImplOut struct {
 	Attrs    int         `json:"attrs"`
 	Own      int         `json:"own"` // instance the real manager resolved the host to when the request arrived (-1: none)
 	OwnReady bool        `json:"ownReady"`
+	Upstream int         `json:"upstream"` // instance WithUpstreamInfo bound the request to (-1: not bound)
 	Res      interface{} `json:"res"`
 	Time     int         `json:"time"`
 	Reviewed bool        `json:"reviewed"`
@@ -161,6 +164,7 @@ type ModelOut struct {
 	Kind  string          `json:"kind"`
 	Rid   int             `json:"rid"`
 	Inst  int             `json:"inst"`
+	Upstream int          `json:"upstream"`
 	Res   json.RawMessage `json:"res"`
 	Time  int             `json:"time"`
 	Src   string          `json:"src"`
